@@ -55,6 +55,10 @@ def build(cfg, like=None):
     for k in ("output_dir", "output_label"):
         if k in c:
             kw[k] = c[k]
+    if c.get("like_args"):
+        # extra positional and keyword arguments handed through the sampler to the likelihood
+        kw["log_likelihood_args"] = [np.full(t.n_dim, 0.125), 0.25]
+        kw["log_likelihood_kwargs"] = dict(tag=3.0)
     s = Sampler(**kw)
     return s, t, like, pt
 
